@@ -50,8 +50,11 @@ def run(ctx):
 
 def replay(ctx, rec):
     c = rec["case"]
-    res = run_workers(ctx, "c13", "replay_gen", [(c["hashseed"], {"insts": [c["inst"]], "cases": [c["expected"]], "seed": c["seed"]})])[0]
-    return res["fails"][:1] or None
+    res = run_workers(ctx, "c13", "replay_gen", [(c["hashseed"], {"insts": [c["inst"]], "cases": list(c.get("prior", [])) + [c["expected"]],
+                                                                 "seed": c["seed"]})])[0]
+    want = (rec.get("api"), rec.get("clause"))
+    hit = [f for f in res["fails"] if (f["api"], f["clause"]) == want and f["case"]["expected"] == c["expected"]]
+    return (hit or res["fails"])[:1] or None
 
 
 def selftest(ctx):
@@ -76,12 +79,21 @@ def replay_gen(payload):
     hs = int(os.environ.get("PYTHONHASHSEED", "0"))
     insts = {i["id"]: i for i in payload["insts"]}
     fails, ncalls = [], 0
+    shared, history = {}, {}
     # every case under string names (full API) and once more under int or tuple names (C16: representation independence)
     for case, vk in [(c, k) for c in payload["cases"] for k in ("str", rng.choice(["int", "tuple"]))]:
         base = insts[case["inst"]]
         inst = dict(base, latents=case["latents"])
-        conc = Conc(inst, rng, vk, "any" if vk != "str" else rng.choice(["str", "any"]))
-        model = build_bn(inst, conc, rng)
+        # ONE model and ONE CausalInference engine per (instance, latent set, name kind): all (treatment, outcome) questions are put to it
+        # one after the other (C16: an answer must not depend on earlier questions about the same treatment and another outcome)
+        key = (case["inst"], tuple(sorted(case["latents"])), vk)
+        if key not in shared:
+            conc_ = Conc(inst, rng, vk, "any" if vk != "str" else rng.choice(["str", "any"]))
+            model_ = build_bn(inst, conc_, rng)
+            shared[key] = (conc_, model_, CausalInference(model_))
+        conc, model, ci_shared = shared[key]
+        prior = list(history.setdefault(key, []))
+        history[key].append(case)
         vn, inv = conc.vn, conc.inv
         x, y = case["x"], case["y"]
         lat = set(case["latents"])
@@ -91,9 +103,10 @@ def replay_gen(payload):
             if vk != "str":
                 feat.setdefault("var_kind", vk)
             fails.append({"api": api, "clause": clause, "features": feat,
-                          "case": {"inst": base, "expected": case, "seed": payload["seed"], "hashseed": hs},
+                          "case": {"inst": base, "expected": case, "seed": payload["seed"], "hashseed": hs,
+                                   "prior": prior if len(json.dumps(prior)) < 400000 else []},   # earlier questions to the same engine
                           "observed": obs, "expected": exp})
-        ci = CausalInference(model)
+        ci = ci_shared
         bd_all = {frozenset(z) for z in case["bd_all"]}
         fd_all = {frozenset(z) for z in case["fd_all"]}
         # ---- validity tests on candidate sets of observed non-descendants
